@@ -216,6 +216,12 @@ func ExploreLeases(env *Env, b *ledger.Built, cfg LeaseConfig, report Report) (L
 	seen := map[[32]byte]int{}
 	var states []*leaseState
 	var queue []int
+	nviol := 0
+	report0 := report
+	report = func(prop, sig, msg string, u *ledger.Universe, hist []ledger.Event) {
+		nviol++
+		report0(prop, sig, msg, u, hist)
+	}
 
 	exec := func(hist []ledger.Event, atEnd func(ns walletdb.ReadWriteBucket, ref *ledger.Ref, s *wtxmgr.Store, outcome string) error) error {
 		return env.InTx(func(ns walletdb.ReadWriteBucket) error {
@@ -336,7 +342,9 @@ func ExploreLeases(env *Env, b *ledger.Built, cfg LeaseConfig, report Report) (L
 			if err := visit(h2); err != nil {
 				report("C12", "event-failed:"+e.Kind, err.Error(), u, h2)
 			}
-			if cfg.MaxStates > 0 && len(states) >= cfg.MaxStates {
+			if (cfg.MaxStates > 0 && len(states) >= cfg.MaxStates) || nviol >= 400 {
+				// (a tree with hundreds of violating histories in one universe is not explored to
+				// the end: its state space need not be finite any more)
 				st.Capped = true
 				queue = nil
 				break
